@@ -195,7 +195,7 @@ fn compact_history(d: &RunData) -> Value {
     json!({"case": d.case, "history": recs, "decisions": d.outcome.stats.steps, "sim_time_ns": d.outcome.clock_ns - 1_000_000})
 }
 
-fn account(st: &mut WStats, d: &RunData) {
+fn account(st: &mut WStats, d: &RunData, prop: &str) {
     st.evaluations += 1;
     if d.outcome.abort.is_none() {
         st.completed_runs += 1;
@@ -203,7 +203,8 @@ fn account(st: &mut WStats, d: &RunData) {
         st.aborted_runs += 1;
     }
     let ntasks = d.case.tasks.len();
-    if ntasks >= 2 && overlapped(&d.recs) {
+    let nontrivial = if prop == "C18" { d.recs.iter().filter(|r| r.task == 1).count() >= 2 } else { ntasks >= 2 && overlapped(&d.recs) };
+    if nontrivial {
         st.nontrivial_runs += 1;
         st.nontrivial.push(mix(d.case.hash64(), history_hash(&d.recs)));
     }
@@ -248,7 +249,7 @@ fn account(st: &mut WStats, d: &RunData) {
     }
     st.hb_accesses += d.outcome.hb_accesses;
     st.hb_cross += d.outcome.hb_cross;
-    if st.samples.len() < 1 && ntasks >= 2 && d.recs.len() >= 6 {
+    if st.samples.len() < 1 && nontrivial && d.recs.len() >= 6 {
         st.samples.push(compact_history(d));
     }
 }
@@ -284,14 +285,20 @@ pub fn cmd_worker(args: &[String]) -> i32 {
     let seed: u64 = args[1].parse().unwrap();
     let start: u64 = args[2].parse().unwrap();
     let count: u64 = args[3].parse().unwrap();
+    let tier: &str = args.get(4).map(|s| s.as_str()).unwrap_or("quick");
     let mut st = WStats::default();
     let out = std::io::stdout();
     let mut seen_sigs: BTreeSet<String> = BTreeSet::new();
     for i in start..start + count {
         let rs = run_seed(seed, prop, i);
-        let case = check::make_case(prop, rs, i);
+        let case = check::make_case(prop, rs, i, tier);
+        {
+            // the driver learns which run was in flight if this process dies
+            let mut o = out.lock();
+            let _ = writeln!(o, "R {}", i);
+        }
         let d = execute(&case, Source::Rng(mix(rs, 0xE)));
-        account(&mut st, &d);
+        account(&mut st, &d, prop);
         let (mine, foreign) = check::evaluate(prop, &d);
         for f in foreign {
             WStats::bump(&mut st.inconclusive, f.sig, 1);
@@ -363,41 +370,74 @@ pub fn cmd_check(prop: &str, tier: &str) -> i32 {
     let mut total = WStats::default();
     let mut vios: Vec<Value> = Vec::new();
     let mut harness_err = false;
-    let mut running: Vec<(std::process::Child, u64, u64)> = Vec::new();
     let mut results: Vec<(u64, String)> = Vec::new();
+    // one reader thread per worker process; the driver waits on a channel with a watchdog
+    enum Msg {
+        Line(u64, String),
+        End(u64, bool),
+    }
+    let (tx, rx) = std::sync::mpsc::channel::<Msg>();
+    let mut running: BTreeMap<u64, (std::sync::Arc<std::sync::Mutex<std::process::Child>>, u64, Instant, u64)> = BTreeMap::new();
+    let limit_s: u64 = std::env::var("VERIF_WORKER_TIMEOUT").ok().and_then(|s| s.parse().ok()).unwrap_or(if tier == "thorough" { 3600 } else { 600 });
     loop {
         while (running.len() as u64) < workers {
             let Some((st, cnt)) = pending.pop() else { break };
-            let child = Command::new(&exe)
+            let mut child = Command::new(&exe)
                 .args(["worker", prop, &seed.to_string(), &st.to_string(), &cnt.to_string(), &tier])
                 .stdout(Stdio::piped())
                 .stderr(Stdio::inherit())
                 .spawn()
                 .expect("spawn worker");
-            running.push((child, st, cnt));
+            let so = child.stdout.take().unwrap();
+            let child = std::sync::Arc::new(std::sync::Mutex::new(child));
+            let c2 = child.clone();
+            let tx2 = tx.clone();
+            std::thread::spawn(move || {
+                for line in BufReader::new(so).lines() {
+                    let _ = tx2.send(Msg::Line(st, line.unwrap_or_default()));
+                }
+                let ok = c2.lock().unwrap().wait().map(|s| s.success()).unwrap_or(false);
+                let _ = tx2.send(Msg::End(st, ok));
+            });
+            running.insert(st, (child, cnt, Instant::now(), st));
         }
         if running.is_empty() {
             break;
         }
-        // wait for the first running worker (they are homogeneous)
-        let (mut child, st, cnt) = running.remove(0);
-        let so = child.stdout.take().unwrap();
-        let mut got_summary = false;
-        for line in BufReader::new(so).lines() {
-            let line = line.unwrap_or_default();
-            if let Some(j) = line.strip_prefix("V ") {
-                if let Ok(vj) = serde_json::from_str::<Value>(j) {
-                    vios.push(vj);
+        match rx.recv_timeout(std::time::Duration::from_secs(2)) {
+            Ok(Msg::Line(st, line)) => {
+                if let Some(j) = line.strip_prefix("V ") {
+                    if let Ok(vj) = serde_json::from_str::<Value>(j) {
+                        vios.push(vj);
+                    }
+                } else if let Some(j) = line.strip_prefix("S ") {
+                    results.push((st, j.to_string()));
+                } else if let Some(j) = line.strip_prefix("R ") {
+                    if let Some(e) = running.get_mut(&st) {
+                        e.3 = j.trim().parse().unwrap_or(e.3);
+                    }
                 }
-            } else if let Some(j) = line.strip_prefix("S ") {
-                results.push((st, j.to_string()));
-                got_summary = true;
             }
+            Ok(Msg::End(st, ok)) => {
+                if let Some((_, cnt, _, last)) = running.remove(&st) {
+                    let got = results.iter().any(|r| r.0 == st);
+                    if !ok || !got {
+                        eprintln!("harness error: worker for runs {}..{} died (last run started: {}); replay it with `ksim one {} {} {}`", st, st + cnt, last, prop, seed, last);
+                        harness_err = true;
+                    }
+                }
+            }
+            Err(_) => {}
         }
-        let status = child.wait().expect("wait");
-        if !status.success() || !got_summary {
-            eprintln!("harness error: worker for runs {}..{} ended with {:?} (summary: {})", st, st + cnt, status, got_summary);
-            harness_err = true;
+        // watchdog
+        let now = Instant::now();
+        let late: Vec<u64> = running.iter().filter(|(_, v)| now.duration_since(v.2).as_secs() > limit_s).map(|(k, _)| *k).collect();
+        for st in late {
+            if let Some((child, cnt, _, last)) = running.remove(&st) {
+                let _ = child.lock().map(|mut c| c.kill());
+                eprintln!("harness error: worker for runs {}..{} exceeded {} s and was killed (last run started: {})", st, st + cnt, limit_s, last);
+                harness_err = true;
+            }
         }
     }
     results.sort_by_key(|r| r.0);
@@ -560,7 +600,7 @@ pub fn cmd_replay(path: &str) -> i32 {
 
 pub fn cmd_one(prop: &str, seed: u64, index: u64) -> i32 {
     let rs = run_seed(seed, prop, index);
-    let case = check::make_case(prop, rs, index);
+    let case = check::make_case(prop, rs, index, &std::env::var("VERIF_TIER").unwrap_or("quick".into()));
     println!("{}", serde_json::to_string(&case).unwrap());
     let d = execute(&case, Source::Rng(mix(rs, 0xE)));
     for r in d.recs.iter() {
@@ -582,7 +622,7 @@ pub fn cmd_selftest(args: &[String]) -> i32 {
             let mut h = Fnv::default();
             for i in start..start + n {
                 let rs = run_seed(seed, prop, i);
-                let case = check::make_case(prop, rs, i);
+                let case = check::make_case(prop, rs, i, "quick");
                 let d = execute(&case, Source::Rng(mix(rs, 0xE)));
                 d.outcome.log_hash.hash(&mut h);
                 history_hash(&d.recs).hash(&mut h);
